@@ -176,9 +176,9 @@ def DTy.size (r : Registry) : DTy → Res (Option Nat)
   | .mptr _ => .ok (some r.ps)
   | .arr t n =>
     match DTy.size r t with
-    | .ok (some s) => match cmul "Type::size: s * count" s n with
-      | .ok v => .ok (some v)
-      | e => e.cast
+    | .ok (some s) =>
+      -- `checked_mul`: a size that does not fit in a `usize` counts as unknown
+      if s * n ≤ usizeMax then .ok (some (s * n)) else .ok none
     | other => other
 
 /-- `Type::alignment` (types.rs:74-83) -/
@@ -222,7 +222,7 @@ structure Mod where
   /-- `HashSet<ItemPath>`: kept duplicate-free, order irrelevant -/
   defPaths : List Path := []
   xvals : List XValue := []
-  /-- `HashMap<ItemPath, FunctionBlock>` built by `collect`: later blocks replace earlier ones -/
+  /-- `HashMap<ItemPath, FunctionBlock>`: all blocks in source order; `implFor` merges per type -/
   impls : List (Path × G.Impl) := []
   /-- `HashMap<String, Vec<Backend>>`: per name, in source order -/
   backends : List (String × SBackend) := []
@@ -233,8 +233,10 @@ deriving Repr, Inhabited
 def Mod.scope (m : Mod) : List Path := m.path :: m.uses
 
 def Mod.implFor (m : Mod) (p : Path) : Option G.Impl :=
-  -- the last block with that path wins (HashMap collect)
-  (m.impls.reverse.find? (fun e => e.1 == p)).map (·.2)
+  -- several blocks for the same type are merged, in source order
+  match (m.impls.filter (fun e => e.1 == p)).map (·.2) with
+  | [] => none
+  | b :: bs => some { name := b.name, fns := (b :: bs).flatMap (·.fns), attrs := (b :: bs).flatMap (·.attrs) }
 
 def Mod.backendsFor (m : Mod) (name : String) : List SBackend :=
   (m.backends.filter (fun e => e.1 == name)).map (·.2)
